@@ -11,6 +11,10 @@ CLAIMED = {
          "Lean 4 reference evaluator with well-definedness theorems + end-to-end correspondence on generated programs (interpreter and C routes)",
          "The expected output of each generated program is computed by a Lean evaluator whose well-definedness is proved; every run compiles the programs with the rebuilt compiler through -Ginterp and the C back end and compares stdout and exit class; disagreements are shrunk on the AST."),
 
+
+ "C02": ("partial: the peephole pass (of_peep.c rules for boolean/machine-integer builtins, If/Select/Cast heads) is modelled and proved semantics-preserving under exactly the guards the code has (refuted without them: recorded findings), its identity tables are regenerated and every claimed identity is proved valid for all 64-bit values, the optimisation-level table is regenerated and proved monotone and complete w.r.t. the switch names the search enumerates; constant folding is covered by C04's regenerated theorems; inliner, cprop, CSE, emerge, env, jflow, deada, deadv, hfold, retyp, rrfmt are NOT modelled and are covered by the program x configuration search (known causes are listed findings; an unexplained difference is a violation).",
+         "translators (optControl, peephole identity tables) + Lean 4 proof over hand model of of_peep.c + differential correspondence (peephole pass run in isolation) + end-to-end search over programs x {Q0..Q9, -O, -Q0 -Q<pass>, -Q9 -Qno-<pass>, random subsets} on interpreter and C routes, differences shrunk over the switch set",
+         "Peephole model proved and compared with the real pass on ~21k expression trees per run; 77 corpus programs and generated programs (with the Lean reference output) are run under the full configuration space pinned to the regenerated switch table; a failing configuration is reduced to a minimal switch set naming the guilty passes."),
  "C03": ("partial: the termination-kind table (halt codes and messages regenerated from foam.h/foam_c.c/fint.c) is proved to give the same success/failure class, message and stdout contribution on both routes except for hardware faults (recorded finding); builtin-level agreement is C04's theorems; the interpreter's evaluator loop and the C emitter are not modelled and are covered by the three-route search over corpus and generated programs at six -Q levels.",
          "translator (halt codes/messages) + Lean 4 case analysis + end-to-end three-route differential search (interp from source, interp from .ao, C executable) x {Q0,1,2,3,5,9}",
          "Regenerated halt tables are re-proved to agree between routes each run; one program per termination kind and ~50 corpus/generated programs are run on three routes at six levels; differences are shrunk and classified by cause."),
